@@ -124,6 +124,10 @@ def check_sfcf(ctx, case):
         r = sorted(reps)[case['which'] % len(reps)]
         c = reps[r][case['which'] % len(reps[r])]
         nm = case['corrs'][case['want']][0]
+        if case.get('multi_keys'):
+            nm = 'f_A' if case['multi_keys'][0] == 'fA_wf' else 'f_1'
+        elif case.get('multi'):
+            nm = ['f_1', 'f_A'][case['which'] % 2]
         if lay == 'c':
             path = os.path.join(root, 'data', 'data_r%d' % r, 'data_r%d_n%d' % (r, c))
         elif lay == 'o':
@@ -149,7 +153,7 @@ def check_sfcf(ctx, case):
                         offs.add(line_ends[i] - 1 - rng.randrange(1, len(l)))
             offs = sorted(o for o in offs if 0 <= o < len(full))
         ctx.count('offsets', len(offs))
-        if lay == 'o' and ctx.lean is not None:
+        if lay == 'o' and ctx.lean is not None and not case.get('multi_keys') and not case.get('multi'):
             probs += tie_text_block(ctx, case, path, full, offs)
         for k in offs:
             open(path, 'wb').write(full[:k])
@@ -314,7 +318,11 @@ def gen_case(ctx):
         c['reps'] = {r: v[:rng.randint(5, 7)] for r, v in list(c['reps'].items())[:2]}
         if rng.random() < 0.5:
             c['want'] = 4 if c['fmt'] != 'sfcf_a' else 4     # the last block of a file: nothing follows its data lines
+        if c['fmt'] != 'sfcf_a' and rng.random() < 0.4:
+            # several keys of one correlator name in one call, listed against the order of the blocks in the file
+            c['multi_keys'] = [rng.choice(['fA_wf', 'f1_wf2']), rng.random() < 0.25]
         c.update({'kind': 'sfcf', 'seed': rng.getrandbits(24), 'which': rng.getrandbits(8), 'sel': {}})
+        ctx.count('sfcf-call=' + ('multi-keys' if c.get('multi_keys') else 'multi' if c.get('multi') else 'single'))
         return c
     return {'kind': 'archive', 'archive': rng.choice(['json.gz', 'xml.gz', 'csv.gz', 'json']), 'seed': rng.getrandbits(24)}
 
